@@ -3,7 +3,7 @@ import os
 import random
 
 from pyvc.core import And, Eq, Implies, Ite, Not, Or
-from pyvc.unit import unit
+from pyvc.unit import bare, unit
 
 DEX = "androguard/core/dex/__init__.py"
 META = {
@@ -29,7 +29,7 @@ class _SID:
 @unit("C17", covers=[(DEX, "ClassManager.get_string"), (DEX, "ClassManager.set_hook_string")], samples=60)
 def hook_lookup(U):
     m = U.mod(DEX)
-    cm = object.__new__(m.ClassManager)
+    cm = bare(m.ClassManager)
     cm.hook_strings = {}
     cm.get_raw_string = lambda idx: ("raw", idx)
     i = U.choice("i", [0, 1, 5, 70000])
@@ -46,7 +46,7 @@ def hook_lookup(U):
 def hook_overwrite(U):
     """any prior hook state, any new value (including the item's original raw string): the last set value wins"""
     m = U.mod(DEX)
-    cm = object.__new__(m.ClassManager)
+    cm = bare(m.ClassManager)
     cm.hook_strings = {}
     cm.get_raw_string = lambda idx: ("raw", idx)
     i = U.choice("i", [0, 1, 5, 70000])
@@ -56,7 +56,7 @@ def hook_overwrite(U):
         cm.set_hook_string(i, "OLD")
     elif prior == "rawj" and j != i:
         cm.set_hook_string(j, "OLDJ")
-    v = U.choice("v", ["NEW", "raw", "OLD"])
+    v = U.choice("v", ["NEW", "raw", "OLD", "", "0"])          # any text is a name a caller may set: also the empty one
     val = ("raw", i) if v == "raw" else v
     o = U.call(cm.set_hook_string, i, val)
     U.ensures("set_hook_string does not raise", o.ok, exc=repr(o.exc))
@@ -142,7 +142,7 @@ RENAME_VALUES = ["ren", "this$0", "val$x", "$VALUES", "<init>", "access$000", "a
 def hook_setters(U, kind, export):
     from androguard.core.dex.dex_types import TypeMapItem
     m = U.mod(DEX)
-    cm = object.__new__(m.ClassManager)
+    cm = bare(m.ClassManager)
     cm.hook_strings = {}
     cm.get_raw_string = lambda idx: "orig%d" % idx
     name_idx = U.choice("name_idx", [0, 3, 9])
@@ -247,6 +247,8 @@ def rename_sequences(U):
         if r < 0.75:
             k, it = rng.choice(items)
             new = ("Lren/C%d;" % step) if k == "class" else rng.choice(["ren%d", "this$%d", "access$%d00", "<ren%d>", "val$r%d"]) % step
+            if k != "class" and rng.random() < 0.06:
+                new = ""                                 # the empty text is a new name like any other
             if id(it) in renamed_ids and rng.random() < 0.35:
                 new = orig[id(it)]                      # rename back to the original name
             o = U.call(it.set_name, new)
